@@ -73,7 +73,12 @@ def run(ck, prop="C01"):
                     # (which keep the volume): a collapse on a mesh of a handful of nodes can flatten the cell to a sliver
                     # whose volume is rounding-sized and of either sign without the windings being wrong
                     only_splits = all(op[0] == "split" for op in st["trace"])
-                    if v0 > 0 and v1 <= 0 and v0 / 6 > 0.02 * rc.total_area(pre) ** 1.5 and (only_splits or -v1 / 6 > 0.02 * rc.total_area(st) ** 1.5):
+                    # (second false alarm, thorough tier: six collapses took a crumpled 13-node mesh to a 7-node polyhedron of
+                    # 4 % of the volume and negative sign: still geometry, not windings.)  The sign test is therefore kept for
+                    # passes of splits only, where the volume is preserved exactly; a wrong winding produced by a collapse or
+                    # a swap is a local defect that the half-edge test above (every edge traversed once in each direction)
+                    # sees, and a global flip by the compaction is caught by compaction_changes_geometry
+                    if v0 > 0 and v1 <= 0 and v0 / 6 > 0.02 * rc.total_area(pre) ** 1.5 and only_splits and st["trace"]:
                         fails.append((ci, k, "orientation_lost (signed volume %.3g -> %.3g over one %s)" % (v0 / 6, v1 / 6, st["name"])))
                 elif st["name"] == "REBASE":
                     if sorted(rc.canon(f["tri"]) for f in rc.live_faces(st)).__len__() != len(rc.live_faces(pre)) or st["freeN"] or st["freeF"]:
